@@ -70,6 +70,12 @@ CHECKS = {
         note="Trusted base: resolver D and its version key (cross-checked against packaging.Version on a fixed table at start-up).",
         ref="2/C10",
     ),
+    "C11": dict(
+        technique="property-based differential: Hypothesis documents (fragment / lone body / lone html shapes, dependencies, head_content and tagifiables anywhere, html attribute kwargs, lib_prefix / include_version) rendered by HTMLDocument vs. a document assembled by the harness from Tag primitives and its own dependency URL/markup/listing/resolution model; independent structural reading with the tokenizer",
+        text="Seeded generated-input search with a differential oracle (exact string and dependency equality) and a second, structural oracle (doctype, one root, one head, meta charset first, one listing, each URL once in order). Exploration.",
+        note="Trusted base: dependency model D (percent-encoder, URL join, markup order), tokenizer T, expand() of C09; Tag rendering itself is the subject of C01-C07.",
+        ref="2/C11",
+    ),
 }
 
 PENDING_REASON = "check not built yet in this revision (work in progress; see DESIGN.md section 2 for the planned generator and oracle)"
